@@ -433,6 +433,14 @@ class Interp:
             key = self.enter_user(path, "child", yields=st.get("yields", 0))
             try:
                 res = self.block(st["body"], c, path)
+                if st.get("pad_to"):
+                    from aws_durable_execution_sdk_python.serdes import serialize as _ser
+
+                    ser = (lambda v: json.dumps(v)) if st.get("serdes") == "json" else (lambda v: _ser(None, v, "probe", "arn"))
+                    base = len(ser({"r": res, "pad": ""}))
+                    val = {"r": res, "pad": "p" * max(0, st["pad_to"] - base)}
+                    self.world.setdefault("sizes", {})[path] = len(ser(val))
+                    return val
                 if st.get("pad"):
                     return {"r": res, "pad": "p" * st["pad"]}
                 if st.get("raise"):
@@ -729,6 +737,16 @@ def run_execution(case: dict, *, max_invocations: int | None = None, hooks: dict
             raise
 
     sdk_state.ExecutionState.create_checkpoint = traced_cc
+    import aws_durable_execution_sdk_python.execution as sdk_execution
+    import aws_durable_execution_sdk_python.operation.child as sdk_child
+
+    saved_limits = (sdk_child.CHECKPOINT_SIZE_LIMIT, sdk_execution.LAMBDA_RESPONSE_SIZE_LIMIT)
+    lim = case.get("limits") or {}
+    if lim.get("checkpoint"):
+        sdk_child.CHECKPOINT_SIZE_LIMIT = lim["checkpoint"]
+    if lim.get("response"):
+        sdk_execution.LAMBDA_RESPONSE_SIZE_LIMIT = lim["response"]
+    run.limits = {"checkpoint": sdk_child.CHECKPOINT_SIZE_LIMIT, "response": sdk_execution.LAMBDA_RESPONSE_SIZE_LIMIT}
     try:
         for inv in range(bound + 1):
             if inv == bound:
@@ -836,6 +854,7 @@ def run_execution(case: dict, *, max_invocations: int | None = None, hooks: dict
             break
     finally:
         sdk_state.ExecutionState.create_checkpoint = orig_cc
+        sdk_child.CHECKPOINT_SIZE_LIMIT, sdk_execution.LAMBDA_RESPONSE_SIZE_LIMIT = saved_limits
     return run
 
 
